@@ -11,7 +11,7 @@ HERE = os.path.dirname(os.path.abspath(__file__))
 sys.path.insert(0, HERE)
 
 TRUSTED_BASE = [
-    "Coq 8.16.1 kernel (coqc; vm_compute used only in Examples and _refuted witnesses); no native_compute",
+    "Coq 8.16.1 kernel (coqc; vm_compute used only in Examples and _refuted witnesses); no native_compute; Coq stdlib only (List ZArith NArith QArith Bool Lia Permutation Sorting String); coqchk -o re-check in the thorough tier",
     "axioms: none expected (every property theorem must print 'Closed under the global context'; anything else fails the check)",
     "hand-written Gallina model of ddnnife; tied to /repo by the differential correspondence run of this check",
     "extraction to OCaml with ExtrOcamlBasic only (bool, option, list, prod, unit, sumbool mapped to OCaml; no Extract Constant / Extract Inductive of our own); OCaml 4.13.1; ocaml/driver.ml, conv.ml, blocks.ml, chk_*.ml",
